@@ -602,10 +602,12 @@ theorem iterLoop_panic_of (ctx : Ctx) (root : State) (rootHash : UInt64) (worker
   | zero => intro depth st h; exact h
   | succ n ih =>
     intro depth st h
-    rw [iterLoop.eq_2]
+    rw [iterLoop_succ]
     split
     · exact h
-    · exact ih _ _ (iterStep_panic_of ctx root rootHash _ depth st h)
+    · split
+      · rw [boundaryPoll_panic]; exact h
+      · exact ih _ _ (iterStep_panic_of ctx root rootHash _ depth _ (by rw [boundaryPoll_panic]; exact h))
 
 section loopC
 variable {K : Keys} {H : List UInt64} {D : State → Prop} {B L nT nB : Nat} (g : Geo L nT nB) (dom : Domain K D)
@@ -627,8 +629,16 @@ theorem iterLoop_complete (hc : ctx.cancelAt = Option.none) (n₀ : Nat) (hn₀B
   induction n with
   | zero => intro depth st _ _ h1 h2; omega
   | succ n ih =>
-    intro depth st hci hfin h1 h2 hnp
-    rw [iterLoop.eq_2, if_neg (by rw [hfin]; decide)] at hnp ⊢
+    intro depth st0 hci0 hfin0 h1 h2 hnp
+    -- never cancelled: the boundary read of the flag does not end the loop and keeps the invariant
+    obtain ⟨st, hst, hci, hfin⟩ : ∃ st, st = boundaryPoll ctx depth st0 ∧ CIter K H D B L nT nB root depth st ∧
+        st.finished = false := by
+      refine ⟨_, rfl, ?_, ?_⟩
+      · unfold CIter; rw [boundaryPoll_tt]; exact ⟨hci0.1.boundaryPoll ctx depth, hci0.2⟩
+      · rw [boundaryPoll_finished_of_none ctx hc]; split
+        · rfl
+        · exact hfin0
+    rw [iterLoop_succ, if_neg (by rw [hfin0]; decide), ← hst, if_neg (by rw [hfin]; decide)] at hnp ⊢
     have hnp' : (iterStep ctx root (hash K root) 1 depth st).panic = Option.none := by
       cases hp : (iterStep ctx root (hash K root) 1 depth st).panic with
       | none => rfl
